@@ -28,6 +28,7 @@ import (
 
 	kanzi "github.com/flanglet/kanzi-go/v2"
 	"github.com/flanglet/kanzi-go/v2/internal"
+	"github.com/flanglet/kanzi-go/v2/internal/simhook"
 	kio "github.com/flanglet/kanzi-go/v2/io"
 	"github.com/flanglet/kanzi-go/v2/transform"
 )
@@ -306,6 +307,9 @@ func (this *BlockCompressor) CPUProf() string {
 }
 
 func fileCompressWorker(tasks <-chan fileCompressTask, cancel <-chan bool, results chan<- fileCompressResult) {
+	simhook.Start(tasks)
+	defer simhook.Exit(tasks)
+
 	// Pull tasks from channel and run them
 	more := true
 
@@ -594,6 +598,7 @@ func (this *BlockCompressor) Compress() (int, uint64) {
 
 		// Create one worker per job. A worker calls several tasks sequentially.
 		for j := uint(0); j < this.jobs; j++ {
+			simhook.Spawn((<-chan fileCompressTask)(tasks))
 			go fileCompressWorker(tasks, cancel, results)
 		}
 
@@ -601,6 +606,10 @@ func (this *BlockCompressor) Compress() (int, uint64) {
 
 		// Wait for all task results
 		for i := 0; i < nbFiles; i++ {
+			for simhook.Active() && len(results) == 0 {
+				simhook.Spin("app.results", 0, 1)
+			}
+
 			result := <-results
 			read += result.read
 			written += result.written
@@ -783,6 +792,9 @@ func (this *fileCompressTask) call() (int, uint64, uint64, error) {
 		defer output.Close()
 	}
 
+	output = simhook.WrapWriteCloser(output)
+	simhook.Point("app.c.output.opened", 0)
+
 	cos, err := kio.NewWriterWithCtx(output, this.ctx)
 
 	if err != nil {
@@ -811,6 +823,8 @@ func (this *fileCompressTask) call() (int, uint64, uint64, error) {
 
 		defer input.Close()
 	}
+
+	input = simhook.WrapReadCloser(input)
 
 	for _, bl := range this.listeners {
 		cos.AddListener(bl)
@@ -867,6 +881,8 @@ func (this *fileCompressTask) call() (int, uint64, uint64, error) {
 		}
 	}
 
+	simhook.Point("app.c.before.close", 0)
+
 	// Close streams to ensure all data are flushed
 	// Deferred close is fallback for error paths
 	if err := cos.Close(); err != nil {
@@ -878,6 +894,8 @@ func (this *fileCompressTask) call() (int, uint64, uint64, error) {
 		fmt.Printf("%v\n", err)
 		return kanzi.ERR_PROCESS_BLOCK, read, cos.GetWritten(), err
 	}
+
+	simhook.Point("app.c.closed", 0)
 
 	after := time.Now()
 	delta := after.Sub(before).Nanoseconds() / 1000000 // convert to ms
@@ -936,6 +954,8 @@ func (this *fileCompressTask) call() (int, uint64, uint64, error) {
 			log.Println(msg, verbosity > 0)
 		}
 
+		simhook.Point("app.c.before.remove", 0)
+
 		// Delete input file
 		if inputName == "STDIN" {
 			log.Println("Warning: ignoring remove option with STDIN", verbosity > 0)
@@ -944,5 +964,6 @@ func (this *fileCompressTask) call() (int, uint64, uint64, error) {
 		}
 	}
 
+	simhook.Point("app.c.done", 0)
 	return 0, read, cos.GetWritten(), nil
 }
